@@ -238,6 +238,13 @@ def cases(tier, rnd):
         for _ in range(rnd.randint(1, 3)):
             T = rnd.randint(1, 5)
             chains.append([dict(t, p=fr(Fraction(rnd.randint(1, 16), 16))) for t in gen_mixture(rnd, n, T, outliers=(i % 3 == 0))])
+        # the same topology visited by several chains with different scores and counts (a per-chain summary would
+        # weigh it once per chain)
+        if len(chains) > 1 and i % 4 != 3:
+            for ch in chains[1:]:
+                for _ in range(rnd.randint(1, 3)):
+                    t = rnd.choice(chains[0])
+                    ch.insert(rnd.randrange(len(ch) + 1), dict(t, p=fr(Fraction(rnd.randint(1, 16), 16))))
         out.append({"kind": "trace", "n": n, "dseed": rnd.randrange(1 << 30), "chains": chains,
                     "wtype": "counts" if i % 2 == 0 else "joint-likelihood", "theta": THETAS[(i // 2) % len(THETAS)]})
     for i in range(40 if quick else 3000):
@@ -626,11 +633,18 @@ def check_trace(ctx, case):
         return
     captured = {}
     orig = pt.get_tree_from_consensus_graph
+    orig_cons = pt.get_consensus_tree
 
     def spy(data, graph):
         t = orig(data, graph)
         captured["tree"] = t
         return t
+
+    def spy_cons(trees, *a, **kw):
+        lp = kw.get("log_p_list")
+        if kw.get("weighted") and lp is not None:
+            captured["weights"] = [float(x) for x in np.asarray(lp, dtype=float)]
+        return orig_cons(trees, *a, **kw)
 
     err = built = None
     table = newick = ""
@@ -639,6 +653,7 @@ def check_trace(ctx, case):
         with gzip.GzipFile(f_in, "wb") as fh:
             pickle.dump(results, fh)
         pt.get_tree_from_consensus_graph = spy
+        pt.get_consensus_tree = spy_cons
         try:
             pt.write_consensus_results(f_in, f_tab, f_nwk, consensus_threshold=float(theta), weight_type=case["wtype"])
             table, newick = open(f_tab).read(), open(f_nwk).read()
@@ -646,6 +661,7 @@ def check_trace(ctx, case):
             err = e
         finally:
             pt.get_tree_from_consensus_graph = orig
+            pt.get_consensus_tree = orig_cons
     site = "process_trace.write_consensus_results"
     if err is None:
         built = extract(captured["tree"])
@@ -670,6 +686,12 @@ def check_trace(ctx, case):
         mw = sorted(Fraction(x) for x in ans["weights"])
         if mw != sorted(w):
             ctx.corr_fail(case, "topology weights differ", {"model": ans["weights"], "exact": [fr(x) for x in w]})
+        # the weights the command hands to the consensus builder (one per distinct topology, normalised) vs the model's:
+        # a difference that moves no clade across the threshold is not a property failure, but the correspondence is broken
+        cw = sorted(captured.get("weights", []))
+        if cw and (len(cw) != len(mw) or any(abs(a - float(b)) > 1e-9 for a, b in zip(cw, mw))):
+            ctx.corr_fail(case, "topology weights used by write_consensus_results differ from the model's",
+                          {"code": cw, "model": [float(x) for x in mw]})
         ans = ans["result"]
     else:
         ans = ctx.ask({"op": "cons", "n": n, "theta": case["theta"], "trees": [e["forest"] for e in entries]})
@@ -707,8 +729,31 @@ def oracle_only(ctx, case):
     oracle(ctx, case, r["sup"], r["theta"], case["n"], r["built"], r["err"], "process_trace.consensus.get_consensus_tree")
 
 
+def shared_trace_cases(rnd, k):
+    """weighted multi-chain traces in which chains share topologies with different scores and counts, thresholds 1/2 .. 3/5:
+    the situation in which a per-chain treatment of topologies changes the majority"""
+    out = []
+    for i in range(k):
+        n = rnd.randint(3, 5)
+        base = [dict(t) for t in gen_mixture(rnd, n, rnd.randint(2, 3), outliers=False)]
+        chains = []
+        for _ in range(rnd.randint(2, 3)):
+            ch = []
+            for t in base:
+                for _ in range(rnd.randint(0, 3)):
+                    ch.append(dict(t, p=fr(Fraction(rnd.randint(1, 16), 16))))
+            if not ch:
+                ch.append(dict(base[0], p=fr(Fraction(rnd.randint(1, 16), 16))))
+            rnd.shuffle(ch)
+            chains.append(ch)
+        out.append({"kind": "trace", "n": n, "dseed": rnd.randrange(1 << 30), "chains": chains, "wtype": "joint-likelihood",
+                    "theta": rnd.choice(["1/2", "1/2", "3/5"])})
+    return out
+
+
 def search(ctx, failed_cases, rnd, deadline):
-    for c in list(failed_cases) + cases("quick", rnd):
+    extra = shared_trace_cases(rnd, 400) if any(c.get("kind") == "trace" for c in failed_cases) else []
+    for c in list(failed_cases) + extra + cases("quick", rnd):
         if time.time() > deadline or ctx.oracle_failures:
             break
         oracle_only(ctx, c)
